@@ -105,7 +105,23 @@ func refMuxPES(r *Rng, pid uint16, sid byte, n int, unbounded bool) *refUnit {
 	hdr := &bw{}
 	hdr.put(2, 2)
 	hdr.put(6, uint64(r.Intn(64))&0x37) // scrambling(2) priority alignment copyright original
-	if r.Bool() {
+	if r.Chance(1, 5) {
+		// PTS and a PES extension carrying extension field 2 (bytes the parser hands out as they are)
+		u.PTS = int64(r.Bits(33))
+		n := r.Range(1, 12)
+		hdr.put(8, 0x81)
+		hdr.put(8, uint64(5+2+n))
+		hdr.put(4, 2)
+		hdr.put(3, uint64(u.PTS>>30))
+		hdr.put(1, 1)
+		hdr.put(15, uint64(u.PTS>>15))
+		hdr.put(1, 1)
+		hdr.put(15, uint64(u.PTS))
+		hdr.put(1, 1)
+		hdr.put(8, 0x0f) // no private data / pack header / sequence counter / P-STD, reserved 111, extension flag 2
+		hdr.put(8, uint64(0x80|n))
+		hdr.bytes(r.Bytes(n))
+	} else if r.Bool() {
 		u.PTS = int64(r.Bits(33))
 		hdr.put(8, 0x80)
 		stuff := r.Intn(4)
